@@ -34,9 +34,25 @@ the property predicate (oracle `check`, op 303) unless noted; "A:" = added by th
                                                   ReferenceDatabase.load_from_dir: persisted Taxon.parent, report column default,
                                                   thresholds through the REAL column, distances from real signatures)
     every query ................................. 1..4 rows; A: 20..60 rows, the same query twice, empty query signature (db)
+    the database as it is AT THE TIME OF THE
+    QUERY (edit sequences on live objects) ...... was: every database was built once, classified and thrown away; no object was ever
+                                                  classified again after a change.  A: edit -- edit-sequences-transient / -session / -file:
+                                                  the SAME ORM objects (transient; persistent in the session that created them on an
+                                                  in-memory database; loaded from a database file through gambit.db.sqla.file_sessionmaker(
+                                                  readonly=False), all taxa preloaded or loaded on demand) go through 2..6 rounds of
+                                                  [walk helpers called: ancestors / lineage / root / depth / descendants / leaves /
+                                                  has_genome / lca / reportable_taxon ...] -> [0..3 curator edits] -> [classification of
+                                                  1..3 distance vectors, judged against the harness's table as it is THEN].  Edits:
+                                                  re-parent a taxon at any level (other branch / to a root / a root under another tree;
+                                                  via .parent, via parent.children.remove/append, via parent_id + flush + refresh /
+                                                  expire_all / commit), set / change / remove a threshold, flip a report flag, insert a
+                                                  new taxon between two levels (or above a root), add a leaf / a root, move a genome
+                                                  (.taxon, taxon.genomes.append, taxon_id + expire), delete a leaf taxon, and the session
+                                                  operations flush / commit / expire_all / rollback (the table returns to the last commit)
   observe at / entry points
-    get_result_item ............................. cls, chain
-    gambit.query.query(...).items[i] ............ was: only 5 CSV columns of it (csv).  A: qry (items + all 10 columns), db
+    get_result_item ............................. cls, chain; A: edit (call form item)
+    gambit.query.query(...).items[i] ............ was: only 5 CSV columns of it (csv).  A: qry (items + all 10 columns), db, edit (call form
+                                                  query: a real ReferenceDatabase object over the live session in the session / file modes)
       call forms: params object / keywords / defaults, chunksize None,1,2,3,1000, report_closest 0..50, numpy.int64
       parameters, inputs= none / str / QueryInput, genomes as list / tuple, second call on the same objects ... A: qry, db
       one query() per signature; query_parse on FASTA files ...................................................... A: db
@@ -52,7 +68,9 @@ the property predicate (oracle `check`, op 303) unless noted; "A:" = added by th
                                                   known finding C11-csv-lone-cr (csv writer, not this property)
     gambit query command ........................ was: not driven.  A: db -- default output, --no-strict -f csv, -f json
                                                   (predicted_taxon / next_taxon keys), FASTA arguments (-c 1)
-  not covered: NaN / infinite / negative distances (ASSUMPTIONS); -f archive (C11); which signature belongs to which genome
+  not covered: edits made by ANOTHER process / session to the file behind already loaded objects, raw SQL that bypasses the ORM,
+  cyclic parent assignments, adding or removing reference genomes of a loaded database (ASSUMPTIONS);
+  NaN / infinite / negative distances (ASSUMPTIONS); -f archive (C11); which signature belongs to which genome
   (C04); labels of the rows (C08); closest_genomes list (C09); strict mode (C10)."""
 import csv
 import io
@@ -70,9 +88,16 @@ RULE = ('cls: forest (parent table, optional thresholds, report flags) + genomes
         'strict spelling x scalar type; qry: query() on a supplied matrix (dtypes, layouts, call forms, odd names, ties, '
         '1..60 rows, up to 1200 genomes) judged on items[i] and on all predicted.*/closest.*/next.* CSV columns; db: a '
         'database directory written by the harness (sqlite + HDF5, thresholds on/next to the real Jaccard distances), '
-        'loaded and queried through query()/query_parse() and the gambit query command (csv, --no-strict, json, FASTA).  '
+        'loaded and queried through query()/query_parse() and the gambit query command (csv, --no-strict, json, FASTA); '
+        'edit: EDIT SEQUENCES on live ORM objects (transient / persistent in their creating session / loaded from a database '
+        'file with a writable session): rounds of [taxonomy walk helpers, not judged] -> [curator edits through the ORM: '
+        're-parent at any level via .parent / children.remove+append / parent_id+refresh|expire|commit, threshold set / '
+        'changed / removed, report flag flipped, taxon inserted between two levels, leaf or root added, genome moved, leaf '
+        'deleted, flush / commit / expire_all / rollback] -> [classify / get_result_item / query() / matching_taxon + '
+        'GenomeMatch on the SAME objects], every classification judged by the same oracle on the lineages of the '
+        'harness\'s own table as it is at that moment (at most one violation is reported per sequence).  '
         'non-trivial: the closest genome\'s lineage has >= 2 taxa of which at least one carries a threshold '
-        '(cls/chain/csv/api/qry/db); cmp: the pair is within 2 float32 ulps')
+        '(cls/chain/csv/api/qry/db); edit: the same, at a classification that follows at least one edit; cmp: the pair is within 2 float32 ulps')
 TRUSTED = ['harness/c03.py: construction of transient gambit.db.models objects from the parent table, derivation of '
            'lineages from the same table, exact float -> scaled-integer conversion (fractions.Fraction)',
            'NumPy: np.argmin returns an index of a minimum; float32 scalar <= Python float (modelled as exact; '
@@ -82,13 +107,26 @@ TRUSTED = ['harness/c03.py: construction of transient gambit.db.models objects f
            'kind db: the harness\'s own Jaccard distance (|A^B| / |AuB|, one binary32 division) is the distance the property '
            'speaks about (that the implementation computes it is C02/C04/C05); FASTA files are used only when the '
            'implementation\'s own signature of the file equals the intended one',
-           'Python csv / json readers used to read the exported files back']
+           'Python csv / json readers used to read the exported files back',
+           'kind edit: the harness applies each edit to its own parent table and, through SQLAlchemy (attribute assignment, '
+           'backref collections, foreign-key column followed by flush + refresh / expire_all / commit, Session.delete, '
+           'Session.rollback = return to the last commit), to the objects; that the two agree is re-checked after every round by '
+           'reading the objects back through .taxon / .parent / .distance_threshold / .report only (a disagreement is '
+           'reported as a broken correspondence, never as a property violation).  The session is flushed before each '
+           're-parent / insert / delete so that one flush holds at most one change of the tree (SQLAlchemy refuses e.g. a '
+           'parent and its child swapping places within a single flush); scratch sqlite files run with synchronous=OFF']
 ASSUMPTIONS = ['distances and thresholds are finite (no NaN/inf); taxon ids are unique; the taxonomy is a forest',
+               'the property speaks about the database AS IT IS AT THE TIME OF THE QUERY: the lineage of a genome is what '
+               'genome.taxon and the chain of Taxon.parent say at that moment, thresholds and report flags are the current attribute '
+               'values -- also for objects that were classified before and edited since (kind edit).  Edits are those made through '
+               'the ORM objects / their session in the same process; a change made to the database file by another process or by '
+               'raw SQL behind loaded objects, an edit that makes the parent relation cyclic, and adding or removing reference '
+               'genomes of a loaded ReferenceDatabase are outside',
                'NumPy 1.x legacy promotion (float32 scalar vs Python float compared in binary64); under NumPy>=2 '
                '(NEP 50) the threshold would be rounded to float32 first and kind cmp would report it',
                'the repaired GenomeMatch.next_taxon (repo_fixes/C03.diff) is the algorithm the theorems are about; '
                'the walk as found is kept as classify_orig with C03_next_orig_refuted']
-CORRESPONDENCES = ['cls', 'chain', 'csv', 'cmp', 'api', 'qry', 'db']
+CORRESPONDENCES = ['cls', 'chain', 'csv', 'cmp', 'api', 'qry', 'db', 'edit']
 
 ERR = {1: 'ValueError', 2: 'IndexError', 3: 'AttributeError', 4: 'OutOfFuel'}
 
@@ -578,9 +616,17 @@ class Plan:
 			self.reqs.append((301, [wire_genomes(taxa, [genomes[c]], num), [num(dists[c])]]))
 		self.todo.append(('row', ci, pos, label, cands, got, expect))
 
-	def run(self, ctx, kind, cases):
+	def run(self, ctx, kind, cases, first_only=False):
+		"""first_only: at most one violation per case (a sequence that went wrong once is not judged further)"""
 		ans = ctx.model(self.reqs) if self.reqs else []
+		n0, failed = len(ctx.violations), -1
 		for e in self.todo:
+			if first_only:
+				if len(ctx.violations) > n0:
+					n0, failed = len(ctx.violations), last
+				if e[1] == failed:
+					continue
+			last = e[1]
 			if e[0] == 'item':
 				_, ci, pos, label, taxa, genomes, dists, o, side, bad = e
 				ok = judge(ctx, kind, cases[ci], label, taxa, genomes, dists, o, ans[pos], ans[pos + 1], 0 if bad else ans[pos + 2])
@@ -1065,8 +1111,568 @@ def k_db(ctx, cases):
 	shutil.rmtree(base, ignore_errors=True)
 
 
+# ==================================================================================================
+# kind edit: EDIT SEQUENCES on live ORM objects.  The property speaks about the database as it is at the time of
+# the query: the same objects are classified, edited the way a curator would (through the ORM), and classified
+# again; every classification is judged against the harness's own CURRENT parent table.
+# ==================================================================================================
+EDIT_MODES = ('transient', 'session', 'file')
+REPARENT_VIA = ('attr', 'children', 'pid-refresh', 'pid-expire', 'pid-commit')
+INSERT_VIA = ('attr', 'children')
+MOVE_VIA = ('attr', 'backref', 'tid-expire')
+SESSION_OPS = ('flush', 'commit', 'rollback', 'expire')
+EDIT_CALLS = ('classify', 'item', 'query', 'match')
+EDIT_HELPERS = ('ancestors', 'ancestors_inc', 'lineage', 'root', 'depth', 'isroot', 'isleaf', 'descendants', 'leaves',
+                'subtree_genomes', 'ancestor_of_rank', 'reportable', 'has_genome', 'lca', 'all')
+STRUCTURAL = ('reparent', 'threshold', 'report', 'insert', 'add', 'move', 'delete', 'rollback')
 
-KINDS = {'cls': k_cls, 'chain': k_chain, 'csv': k_csv, 'cmp': k_cmp, 'api': k_api, 'qry': k_qry, 'db': k_db}
+
+def _is_ix(x):
+	return isinstance(x, int) and not isinstance(x, bool)
+
+
+def _is_thr(v):
+	return v is None or (isinstance(v, (int, float)) and not isinstance(v, bool) and v == v and abs(v) != float('inf'))
+
+
+class EditForest:
+	"""the harness's own copy of the database: parent table (slot i <-> taxon id i + 1; slots are never reused, a
+	deleted or rolled-back taxon leaves a dead slot), genome -> slot, and the state at the last commit"""
+
+	def __init__(self, taxa, genomes, mode):
+		if mode not in EDIT_MODES:
+			raise ValueError('mode')
+		for i, t in enumerate(taxa):
+			if not (isinstance(t, list) and len(t) == 3 and _is_ix(t[0]) and -1 <= t[0] < i and _is_thr(t[1]) and isinstance(t[2], bool)):
+				raise ValueError('taxon entry')
+		if not genomes or not taxa or any(not (_is_ix(g) and 0 <= g < len(taxa)) for g in genomes):
+			raise ValueError('genomes')
+		self.sess = mode != 'transient'
+		self.taxa = [list(t) for t in taxa]
+		self.alive = [True] * len(taxa)
+		self.genomes = list(genomes)
+		self.mark()
+
+	def mark(self):
+		self.saved = ([list(t) for t in self.taxa], list(self.alive), list(self.genomes))
+
+	def rollback(self):
+		taxa, alive, genomes = self.saved
+		extra = len(self.taxa) - len(taxa)
+		self.taxa = [list(t) for t in taxa] + [[-1, None, False] for _ in range(extra)]
+		self.alive = list(alive) + [False] * extra
+		self.genomes = list(genomes)
+
+	def tx(self, x):
+		if not (_is_ix(x) and 0 <= x < len(self.taxa) and self.alive[x]):
+			raise ValueError('no such taxon')
+		return x
+
+	def below(self, p, x):
+		"""x is p or an ancestor of p"""
+		while p >= 0:
+			if p == x:
+				return True
+			p = self.taxa[p][0]
+		return False
+
+	def snapshot(self):
+		return [list(t) for t in self.taxa], list(self.genomes)
+
+	def apply(self, e):
+		"""validate one edit and apply it to the table.  -> the former parent slot where the ORM side needs it.
+		ValueError: the edit is not applicable in this state (replays / shrinking)"""
+		if not (isinstance(e, list) and e and isinstance(e[0], str)):
+			raise ValueError('edit')
+		op, a = e[0], e[1:]
+		if op in SESSION_OPS:
+			if a or not self.sess:
+				raise ValueError('session operation')
+			if op == 'commit':
+				self.mark()
+			elif op == 'rollback':
+				self.rollback()
+			return None
+		if op == 'reparent':
+			if len(a) != 3 or a[2] not in REPARENT_VIA or (a[2].startswith('pid') and not self.sess):
+				raise ValueError('reparent')
+			x, p = self.tx(a[0]), a[1]
+			if p != -1 and self.below(self.tx(p), x):
+				raise ValueError('cycle')
+			old = self.taxa[x][0]
+			self.taxa[x][0] = p
+			if a[2] == 'pid-commit':
+				self.mark()
+			return old
+		if op == 'threshold':
+			if len(a) != 2 or not _is_thr(a[1]):
+				raise ValueError('threshold')
+			self.taxa[self.tx(a[0])][1] = a[1]
+			return None
+		if op == 'report':
+			if len(a) != 2 or not isinstance(a[1], bool):
+				raise ValueError('report')
+			self.taxa[self.tx(a[0])][2] = a[1]
+			return None
+		if op == 'insert':
+			if len(a) != 4 or not _is_thr(a[1]) or not isinstance(a[2], bool) or a[3] not in INSERT_VIA:
+				raise ValueError('insert')
+			x = self.tx(a[0])
+			old = self.taxa[x][0]
+			self.taxa.append([old, a[1], a[2]])
+			self.alive.append(True)
+			self.taxa[x][0] = len(self.taxa) - 1
+			return old
+		if op == 'add':
+			if len(a) != 3 or not _is_thr(a[1]) or not isinstance(a[2], bool):
+				raise ValueError('add')
+			p = a[0] if a[0] == -1 else self.tx(a[0])
+			self.taxa.append([p, a[1], a[2]])
+			self.alive.append(True)
+			return None
+		if op == 'move':
+			if len(a) != 3 or a[2] not in MOVE_VIA or (a[2] == 'tid-expire' and not self.sess) \
+					or not (_is_ix(a[0]) and 0 <= a[0] < len(self.genomes)):
+				raise ValueError('move')
+			self.genomes[a[0]] = self.tx(a[1])
+			return None
+		if op == 'delete':
+			if len(a) != 1:
+				raise ValueError('delete')
+			x = self.tx(a[0])
+			if x in self.genomes or any(self.alive[i] and t[0] == x for i, t in enumerate(self.taxa)):
+				raise ValueError('only a leaf taxon without genomes is deleted')
+			self.alive[x] = False
+			self.taxa[x] = [-1, None, False]
+			return None
+		raise ValueError('edit operation')
+
+	def check_helper(self, h):
+		if not (isinstance(h, list) and h and h[0] in EDIT_HELPERS):
+			raise ValueError('helper')
+		if h[0] == 'all':
+			if len(h) != 1:
+				raise ValueError('helper')
+			return
+		self.tx(h[1] if len(h) > 1 else None)
+		if h[0] == 'has_genome':
+			if len(h) != 3 or not (_is_ix(h[2]) and 0 <= h[2] < len(self.genomes)):
+				raise ValueError('helper')
+		elif h[0] == 'lca':
+			if len(h) != 3:
+				raise ValueError('helper')
+			self.tx(h[2])
+		elif len(h) != 2:
+			raise ValueError('helper')
+
+
+def edit_plan(case):
+	"""dry run of the whole sequence on the table alone.  -> per step (former parents of its edits, table and genome
+	assignment after its edits, live slots before its edits).  ValueError when the case is not a valid edit sequence"""
+	f = EditForest(case['taxa'], case['genomes'], case['mode'])
+	if case['mode'] == 'file' and not isinstance(case.get('preload'), bool):
+		raise ValueError('preload')
+	if not case['steps']:
+		raise ValueError('no steps')
+	out = []
+	for st in case['steps']:
+		if st['call'] not in EDIT_CALLS or not st['rows']:
+			raise ValueError('step')
+		for h in st['warm']:
+			f.check_helper(h)
+		before = [i for i, a in enumerate(f.alive) if a]
+		olds = [f.apply(e) for e in st['edits']]
+		taxa, genomes = f.snapshot()
+		for r in st['rows']:
+			if len(r) != len(genomes) or any(not isinstance(d, (int, float)) or isinstance(d, bool) or d != d or d < 0 or abs(d) == float('inf')
+			                                 or f32(d) != d for d in r):
+				raise ValueError('one finite non-negative binary32 distance per reference genome')
+		out.append((olds, taxa, genomes, before))
+	return out
+
+
+_MEMDB = [None]
+
+
+def _no_fsync(dbapi_con, _record):
+	"""scratch database files need no durability (a commit otherwise waits for the disk)"""
+	dbapi_con.execute('PRAGMA synchronous=OFF')
+
+
+class EditDb:
+	"""the implementation's side: live gambit.db.models objects (transient / in the session that created them on an
+	in-memory database / loaded from a database file through gambit's own writable session) and the edits on them"""
+
+	def __init__(self, case, path):
+		import numpy as np
+		from types import SimpleNamespace
+		from gambit.db import models as M
+		self.M = M
+		self.mode = case['mode']
+		self.session = self.gset = None
+		taxa, genomes = case['taxa'], case['genomes']
+		if self.mode == 'transient':
+			self.objs, self.gs = build_orm(taxa, genomes)
+			self.db = SimpleNamespace(genomes=self.gs, genomeset=None, signatures=SimpleNamespace(meta=None), sig_indices=None)
+			return
+		from sqlalchemy import create_engine, event
+		from sqlalchemy.orm import Session
+		from gambit.db import ReferenceDatabase
+		from gambit.kmers import KmerSpec
+		from gambit.sigs import SignatureList, SignaturesMeta, AnnotatedSignatures
+		if self.mode == 'session':
+			# one in-memory database for the whole run (emptied after every case): statement compilation is cached per engine
+			if _MEMDB[0] is None:
+				_MEMDB[0] = create_engine('sqlite://')
+				M.Base.metadata.create_all(_MEMDB[0])
+			eng = _MEMDB[0]
+		else:
+			with open(path, 'wb') as f:
+				f.write(_empty_gdb())
+			eng = create_engine('sqlite:///' + path)
+			event.listen(eng, 'connect', _no_fsync)
+		s = Session(eng)
+		gset = M.ReferenceGenomeSet(key='verif/c03e', version='1.0', name='c03e')
+		s.add(gset)
+		objs = []
+		for i, (p, thr, rep) in enumerate(taxa):
+			objs.append(M.Taxon(id=i + 1, key=f't{i + 1}', name=f't{i + 1}', genome_set=gset, distance_threshold=thr, report=rep,
+			                    parent=objs[p] if p >= 0 else None))
+		s.add_all(objs)
+		for j, g in enumerate(genomes):
+			s.add(M.AnnotatedGenome(genome=M.Genome(id=j + 1, key=f'g{j}', description=f'g{j}'), genome_set=gset, taxon=objs[g]))
+		s.commit()
+		if self.mode == 'file':
+			s.close()
+			eng.dispose()
+			from gambit.db.sqla import file_sessionmaker
+			s = file_sessionmaker(path, readonly=False)()
+			event.listen(s.get_bind(), 'connect', _no_fsync)
+			gset = s.query(M.ReferenceGenomeSet).one()
+			objs = s.query(M.Taxon).order_by(M.Taxon.id).all() if case['preload'] else [None] * len(taxa)
+		self.session, self.gset, self.objs = s, gset, objs
+		ks = KmerSpec(5, 'AT')
+		sigs = SignatureList([np.array([j], dtype=ks.index_dtype) for j in range(len(genomes))], ks)
+		self.db = ReferenceDatabase(gset, AnnotatedSignatures(sigs, [f'g{j}' for j in range(len(genomes))], SignaturesMeta(id_attr='key')))
+		self.gs = list(self.db.genomes)
+		if [g.genome.key for g in self.gs] != [f'g{j}' for j in range(len(genomes))]:
+			raise RuntimeError('reference order')
+
+	def close(self):
+		if self.session is None:
+			return
+		try:
+			eng = self.session.get_bind()
+			self.session.rollback()
+			self.session.close()
+			if self.mode == 'session':
+				with eng.begin() as c:
+					for tbl in reversed(self.M.Base.metadata.sorted_tables):
+						c.execute(tbl.delete())
+			else:
+				eng.dispose()
+		except Exception:
+			if self.mode == 'session':
+				_MEMDB[0] = None
+
+	def T(self, i):
+		if i is None or i < 0:
+			return None
+		if self.objs[i] is None:
+			self.objs[i] = self.session.get(self.M.Taxon, i + 1)
+		return self.objs[i]
+
+	def new_taxon(self, thr, rep):
+		i = len(self.objs)
+		kw = {} if self.gset is None else dict(genome_set=self.gset)
+		t = self.M.Taxon(id=i + 1, key=f't{i + 1}', name=f't{i + 1}', rank=None, distance_threshold=thr, report=rep, **kw)
+		self.objs.append(t)
+		if self.session is not None:
+			self.session.add(t)
+		return t
+
+	def apply(self, e, old):
+		s = self.session
+		op, a = e[0], e[1:]
+		if s is not None and op in ('reparent', 'insert', 'delete'):
+			# at most one pending change of the tree per flush: SQLAlchemy cannot order the UPDATEs of e.g. a parent and
+			# its child swapping places within one flush (CircularDependencyError; a curator flushes in between), and
+			# only a persistent object can be deleted / refreshed
+			s.flush()
+		if op == 'flush':
+			s.flush()
+		elif op == 'commit':
+			s.commit()
+		elif op == 'rollback':
+			s.rollback()
+		elif op == 'expire':
+			s.flush()
+			s.expire_all()
+		elif op == 'reparent':
+			X, P, O, via = self.T(a[0]), self.T(a[1]), self.T(old), a[2]
+			if via == 'attr':
+				X.parent = P
+			elif via == 'children':
+				if O is not None:
+					O.children.remove(X)
+				if P is not None:
+					P.children.append(X)
+			else:
+				X.parent_id = None if P is None else a[1] + 1
+				if via == 'pid-commit':
+					s.commit()
+				elif via == 'pid-expire':
+					s.flush()
+					s.expire_all()
+				else:
+					s.flush()
+					s.refresh(X)
+					for Y in (O, P):
+						if Y is not None:
+							s.expire(Y, ['children'])
+		elif op == 'threshold':
+			self.T(a[0]).distance_threshold = a[1]
+		elif op == 'report':
+			self.T(a[0]).report = a[1]
+		elif op == 'insert':
+			X, O = self.T(a[0]), self.T(old)
+			N = self.new_taxon(a[1], a[2])
+			if a[3] == 'attr':
+				N.parent = O
+				X.parent = N
+			else:
+				if O is not None:
+					O.children.remove(X)
+					O.children.append(N)
+				N.children.append(X)
+		elif op == 'add':
+			P = self.T(a[0])
+			self.new_taxon(a[1], a[2]).parent = P
+		elif op == 'move':
+			G, T_ = self.gs[a[0]], self.T(a[1])
+			if a[2] == 'attr':
+				G.taxon = T_
+			elif a[2] == 'backref':
+				T_.genomes.append(G)
+			else:
+				s.flush()
+				G.taxon_id = a[1] + 1
+				s.flush()
+				s.expire_all()
+		elif op == 'delete':
+			X = self.T(a[0])
+			if s is None:
+				X.parent = None
+			else:
+				s.delete(X)
+
+	def warm(self, h, alive):
+		"""call a helper that walks the taxonomy (its result is not judged: the property does not speak about it)"""
+		import gambit.db
+		name = h[0]
+		if name == 'all':
+			for i in alive:
+				self.T(i).depth()
+			return
+		t = self.T(h[1])
+		if name == 'ancestors':
+			list(t.ancestors())
+		elif name == 'ancestors_inc':
+			list(t.ancestors(incself=True))
+		elif name == 'lineage':
+			t.lineage()
+		elif name == 'root':
+			t.root()
+		elif name == 'depth':
+			t.depth()
+		elif name == 'isroot':
+			t.isroot()
+		elif name == 'isleaf':
+			t.isleaf()
+		elif name == 'descendants':
+			list(t.descendants())
+		elif name == 'leaves':
+			list(t.leaves())
+		elif name == 'subtree_genomes':
+			list(t.subtree_genomes())
+		elif name == 'ancestor_of_rank':
+			t.ancestor_of_rank('genus')
+		elif name == 'reportable':
+			gambit.db.reportable_taxon(t)
+		elif name == 'has_genome':
+			t.has_genome(self.gs[h[2]])
+		elif name == 'lca':
+			self.M.Taxon.lca([t, self.T(h[2])])
+
+	def lineages(self):
+		"""what the objects say now, walking .taxon / .parent only: per genome [(id, threshold, report), ...]"""
+		out = []
+		for g in self.gs:
+			lin = []
+			t = g.taxon
+			while t is not None and len(lin) <= len(self.objs):
+				lin.append((t.id, t.distance_threshold, bool(t.report)))
+				t = t.parent
+			out.append(lin)
+		return out
+
+	def classify(self, call, rows):
+		"""-> per row (observation | error name, side findings, index of the single genome judged or None = all)"""
+		import numpy as np
+		import warnings
+		import gambit.db
+		import gambit.query as gq
+		from gambit.classify import classify, matching_taxon, GenomeMatch
+		gs = self.gs
+		gix = lambda g: _ix(gs, g)
+		tid = lambda t: t.id
+		out = []
+		if call == 'query' and hasattr(gq, 'jaccarddist_matrix'):
+			mat = np.asarray(rows, dtype=np.float32)
+			saved = gq.jaccarddist_matrix
+			gq.jaccarddist_matrix = lambda *a, **k: mat
+			try:
+				with warnings.catch_warnings():
+					warnings.simplefilter('ignore')
+					items = list(gq.query(self.db, [None] * len(rows)).items)
+			except Exception as e:
+				items = type(e).__name__
+			finally:
+				gq.jaccarddist_matrix = saved
+			for q in range(len(rows)):
+				if isinstance(items, str) or q >= len(items):
+					out.append((items if isinstance(items, str) else 'MissingItem', [], None))
+					continue
+				try:
+					o, side = obs_of(items[q].classifier_result, items[q].report_taxon, gix, tid)
+				except Exception as e:
+					o, side = type(e).__name__, []
+				out.append((o, side, None))
+			return out
+		for r in rows:
+			arr = np.asarray(r, dtype=np.float32)
+			try:
+				if call == 'classify':
+					cr = classify(gs, arr)
+					o, side = obs_of(cr, gambit.db.reportable_taxon(cr.predicted_taxon), gix, tid)
+					c = None
+				elif call == 'match':
+					c = r.index(min(r))
+					gm = GenomeMatch(gs[c], arr[c])
+					mt = matching_taxon(gs[c].taxon, arr[c])
+					t = lambda x: None if x is None else x.id
+					o = dict(closest=0, dist=float(gm.distance), predicted=t(mt), primary=0 if mt is not None else None,
+					         next=t(gm.next_taxon()), report=t(gambit.db.reportable_taxon(gm.matched_taxon)))
+					side = [] if gm.matched_taxon is mt else ['GenomeMatch(genome, distance).matched_taxon differs from matching_taxon(genome.taxon, distance)']
+				else:
+					item = gq.get_result_item(self.db, gq.QueryParams(), arr, gq.QueryInput('q'))
+					o, side = obs_of(item.classifier_result, item.report_taxon, gix, tid)
+					c = None
+			except Exception as e:
+				o, side, c = type(e).__name__, [], None
+			out.append((o, side, c))
+		return out
+
+
+def edit_text(e):
+	op, a = e[0], e[1:]
+	t = lambda i: 'none' if i == -1 else f't{i + 1}'
+	if op == 'reparent':
+		return f'{t(a[0])}.parent := {t(a[1])} [{a[2]}]'
+	if op == 'threshold':
+		return f'{t(a[0])}.threshold := {a[1]!r}'
+	if op == 'report':
+		return f'{t(a[0])}.report := {a[1]}'
+	if op == 'insert':
+		return f'new taxon (threshold {a[1]!r}, report {a[2]}) inserted above {t(a[0])} [{a[3]}]'
+	if op == 'add':
+		return f'new taxon (threshold {a[1]!r}, report {a[2]}) under {t(a[0])}'
+	if op == 'move':
+		return f'genome #{a[0]} moved to {t(a[1])} [{a[2]}]'
+	if op == 'delete':
+		return f'{t(a[0])} deleted'
+	return op
+
+
+def k_edit(ctx, cases):
+	"""case: mode (transient | session | file), preload (file: all taxa loaded up front / on demand), taxa, genomes, steps
+	[{warm: [[helper, taxon(, taxon | genome)]...], edits: [[op, ...]...], call: classify | item | query | match, rows:
+	[distance vectors]}...].  Per step: the helpers are called (warm-up, not judged), the edits are applied to the SAME
+	objects, then every row is classified and judged against the harness's table as it is after the edits."""
+	import os
+	import shutil
+	import warnings
+	from vf import impl as vimpl
+	plan = Plan()
+	base = None
+	for ci, case in enumerate(cases):
+		steps = edit_plan(case)
+		edited = False
+		nontriv = False
+		for st, (_, taxa, genomes, _b) in zip(case['steps'], steps):
+			edited |= any(e[0] in STRUCTURAL for e in st['edits'])
+			nontriv |= edited and nontrivial_for(taxa, genomes, st['rows'])
+		ctx.case(case, nontrivial=nontriv)
+		path = None
+		if case['mode'] == 'file':
+			if base is None:
+				base = vimpl.scratch_dir('gambit-verif-c03e-')
+			path = os.path.join(base, f'c{ci}.gdb')
+		db = None
+		try:
+			with warnings.catch_warnings():
+				warnings.simplefilter('ignore')
+				try:
+					db = EditDb(case, path)
+				except Exception as e:
+					ctx.broke('correspondence edit (building the database objects)', f'{type(e).__name__}: {e}; case {case}')
+					continue
+				done = []
+				for k, (st, (olds, taxa, genomes, alive)) in enumerate(zip(case['steps'], steps)):
+					for h in st['warm']:
+						try:
+							db.warm(h, alive)
+						except Exception:
+							ctx.count('edit:helper-raised')
+					try:
+						for e, old in zip(st['edits'], olds):
+							db.apply(e, old)
+							done.append(edit_text(e))
+					except Exception as e:
+						ctx.broke('correspondence edit (an edit could not be applied to the objects)',
+						          f'step {k}: {type(e).__name__}: {e}; case {case}')
+						break
+					tag = f'step {k} [{case["mode"]} objects, {st["call"]}]' + (f' after {len(done)} edit(s), last: {"; ".join(done[-3:])}' if done else '')
+					for q, (o, side, c) in enumerate(db.classify(st['call'], st['rows'])):
+						r = st['rows'][q]
+						if c is None:
+							plan.item(ci, f'{tag} row {q}', taxa, genomes, r, o, side)
+						else:
+							plan.item(ci, f'{tag} row {q} genome #{c} alone', taxa, [genomes[c]], [r[c]], o, side)
+					# the objects must say what the table says (read only through .taxon / .parent)
+					try:
+						got = db.lineages()
+					except Exception as e:
+						got = f'{type(e).__name__}: {e}'
+					exp = [[(i + 1, taxa[i][1], taxa[i][2]) for i in lineage_ix(taxa, g)] for g in genomes]
+					if got != exp:
+						ctx.broke('correspondence edit (objects vs the harness\'s table after the edits)',
+						          f'step {k}: objects {got} table {exp}; case {case}')
+						break
+		finally:
+			if db is not None:
+				db.close()
+			if path is not None:
+				try:
+					os.unlink(path)
+				except OSError:
+					pass
+	plan.run(ctx, 'edit', cases, first_only=True)
+	if base is not None:
+		shutil.rmtree(base, ignore_errors=True)
+
+
+KINDS = {'cls': k_cls, 'chain': k_chain, 'csv': k_csv, 'cmp': k_cmp, 'api': k_api, 'qry': k_qry, 'db': k_db, 'edit': k_edit}
 BATCH = 1500
 
 
@@ -1262,6 +1868,83 @@ def gen_db(rng, big=False):
 	return dict(k=k, taxa=taxa, tmeta=tmeta, gdesc=gdesc, refs=[[s_, rng.randrange(n)] for s_ in sigs], queries=queries, api=api, cli=cli)
 
 
+def rand_thr(rng):
+	r = rng.random()
+	if r < 0.25:
+		return None
+	if r < 0.6:
+		return rng.choice([0.0, 0.05, 0.1, 0.25, 0.3, 0.5, 0.6, 0.75, 0.9, 1.0])
+	if r < 0.65:
+		return rng.choice([-0.1, 1.5, 1e-40, 2.0 ** -149, 0.1 + 2.0 ** -30])
+	return rng.random()
+
+
+def gen_one_edit(rng, f):
+	"""one random curator edit (or session operation) that is applicable to the table f; None if the draw is not"""
+	live = [i for i, a in enumerate(f.alive) if a]
+	above = sorted({i for g in f.genomes for i in lineage_ix(f.taxa, g)[1:]})      # strict ancestors of a genome's taxon
+	r = rng.random()
+	if f.sess and r < 0.12:
+		return [rng.choice(SESSION_OPS)]
+	if r < 0.5:
+		x = rng.choice(above) if above and rng.random() < 0.6 else rng.choice(live)
+		p = -1 if rng.random() < 0.2 else rng.choice(live)
+		via = rng.choice(REPARENT_VIA if f.sess else REPARENT_VIA[:2])
+		return ['reparent', x, p, via]
+	if r < 0.62:
+		return ['threshold', rng.choice(live), rand_thr(rng)]
+	if r < 0.7:
+		x = rng.choice(live)
+		return ['report', x, not f.taxa[x][2] if rng.random() < 0.9 else f.taxa[x][2]]
+	if r < 0.8:
+		return ['insert', rng.choice(live), rand_thr(rng), rng.random() < 0.6, rng.choice(INSERT_VIA)]
+	if r < 0.85:
+		return ['add', -1 if rng.random() < 0.2 else rng.choice(live), rand_thr(rng), rng.random() < 0.6]
+	if r < 0.95:
+		return ['move', rng.randrange(len(f.genomes)), rng.choice(live), rng.choice(MOVE_VIA if f.sess else MOVE_VIA[:2])]
+	return ['delete', rng.choice(live)]
+
+
+def gen_edit(rng, mode):
+	"""a small forest, 1..4 reference genomes (mostly on deep taxa), and 2..6 steps of (warm-up helpers, 0..3 edits,
+	classification of 1..3 distance vectors on / next to the thresholds of the forest as it is then)"""
+	n = rng.randint(2, 9)
+	taxa = random_forest(rng, n, rng.choice([0.6, 0.85, 0.97]))
+	depth = [len(lineage_ix(taxa, i)) for i in range(n)]
+	deep = [i for i in range(n) if depth[i] >= 3] or [i for i in range(n) if depth[i] >= 2] or list(range(n))
+	m = rng.randint(1, 4)
+	genomes = [rng.choice(deep) if rng.random() < 0.6 else rng.randrange(n) for _ in range(m)]
+	f = EditForest(taxa, genomes, mode)
+	steps = []
+	for k in range(rng.randint(2, 6)):
+		live = [i for i, a in enumerate(f.alive) if a]
+		warm = []
+		if rng.random() < 0.3:
+			warm.append(['all'])
+		for _ in range(rng.choice([0, 0, 1, 2, 3])):
+			h = rng.choice(EDIT_HELPERS[:-1])
+			warm.append([h, rng.choice(live), rng.randrange(m)] if h == 'has_genome' else
+			            [h, rng.choice(live), rng.choice(live)] if h == 'lca' else [h, rng.choice(live)])
+		edits = []
+		if k > 0 or rng.random() < 0.15:
+			for _ in range(rng.choice([0, 1, 1, 1, 1, 2, 3]) if k > 0 else 1):
+				for _try in range(8):
+					e = gen_one_edit(rng, f)
+					try:
+						f.apply(e)
+					except ValueError:
+						continue
+					edits.append(e)
+					break
+		cur = [t for i, t in enumerate(f.taxa) if f.alive[i]]
+		rows = [random_dists(rng, cur, m) for _ in range(rng.choice([1, 1, 2, 3]))]
+		steps.append(dict(warm=warm, edits=edits, call=rng.choice(EDIT_CALLS), rows=rows))
+	case = dict(mode=mode, taxa=taxa, genomes=genomes, steps=steps)
+	if mode == 'file':
+		case['preload'] = rng.random() < 0.5
+	return case
+
+
 def audit_streams(ctx):
 	rng = ctx.rng
 	# A1. direct call forms: every (distance container x genome container x strict spelling x scalar type)
@@ -1323,6 +2006,13 @@ def audit_streams(ctx):
 	for _ in range(n_bd):
 		yield 'db', gen_db(rng, big=True)
 	ctx.count('stream:database-dirs>1000-genomes', n_bd)
+
+	# A6. edit sequences on live objects: classify, edit the taxonomy / thresholds / flags / genome assignment through the
+	#     ORM (attribute, backref collection, foreign-key column + refresh / expire / commit, rollback), classify again
+	for mode, n_e in (('transient', ctx.pick(600, 4000)), ('session', ctx.pick(250, 1500)), ('file', ctx.pick(200, 1200))):
+		for _ in range(n_e):
+			yield 'edit', gen_edit(rng, mode)
+		ctx.count(f'stream:edit-sequences-{mode}', n_e)
 
 
 def generate(ctx):
